@@ -841,3 +841,332 @@ def c16(ctx):
                        "(abort or time-out = violation) and by the Lean model (outcome class and loaded shape must agree); distinct = (mutation kind, outcome, shape size)")
 
 CHECKS.update({"C16": c16})
+
+# ------------------------------------------------------------------------------------------ C13
+def c13(ctx):
+    from . import c3dgen
+    ctx.audit = leanaudit.audit(ctx.pid, thorough=not ctx.quick)
+    exe = ctx.exe("asan")
+    q = ctx.quick
+    scripts = corpus_scripts("C13")
+    scripts += api_scripts(ctx, 120 if q else 3000, malformed=0.35, caller_mut=0.3, with_io=True)
+    scripts += [(x[0] + ["print"], x[1], x[2]) for x in valid_scripts(ctx, 60 if q else 1500, seed_off=5000)]
+    scripts += pset_scripts(ctx) + get_scripts(ctx)[: (10 if q else 1000)]
+    # destruction after refused calls, print on loaded vendor files
+    scripts.append((["dumpmode none", "load /repo/test/c3dFiles/Vicon.c3d", "print", "save @W@/v.c3d", "load @W@/v.c3d", "print"], {}, "vicon-print"))
+    scripts.append((["dumpmode none", "load /repo/test/c3dFiles/Qualisys.c3d", "print", "load /repo/test/c3dFiles/Optotrak.c3d", "print", "save @W@/o.c3d"], {}, "qualisys-optotrak"))
+    _run_scripts(ctx, scripts, "histories", None, timeout=300)
+    # generated well-formed files: load, print, save, destroy
+    n = 60 if q else 1500
+    def one(i):
+        wd = run.workdir(); p = os.path.join(wd, "in.c3d")
+        desc, _ = c3dgen.make_file(ctx.seed * 977 + i, p, big=(i % 29 == 0))
+        S = ["dumpmode shape", "load %s" % p, "print", "save @W@/o.c3d", "load @W@/o.c3d", "get frame 0", "get point 0 0", "get chan 0 0 0", "new"]
+        res = run.run_pair(S, exe, wd=wd, timeout=300)
+        run.cleanup(wd)
+        return desc, S, res
+    for desc, S, res in core.pmap(one, range(n)):
+        ctx.record_pair(res, ["# generated file %s" % desc] + S, "files")
+    # any `ub` predicted by the model on these valid histories is a violation as well
+    # (the harness normally aborts there too; this catches UB the sanitizers happen not to see)
+    # LeakSanitizer: informational only (the statement does not cover leaks)
+    leak_exe = exe
+    L, st = gen.gen_api_history(ctx.seed, with_io="@W@/leak")
+    wd = run.workdir(); sp = os.path.join(wd, "l.txt"); open(sp, "w").write("\n".join(L).replace("@W@", wd) + "\nload /nonexistent.c3d\nload %s/leak.1.c3d\n" % wd)
+    rc, err, dt = run.run_harness(leak_exe, sp, os.path.join(wd, "l.h"), env_extra={"ASAN_OPTIONS": "detect_leaks=1:exitcode=0"})
+    import re
+    m = re.search(r"SUMMARY: AddressSanitizer: (\d+) byte\(s\) leaked in (\d+) allocation", err or "")
+    ctx.notes.append("LeakSanitizer (information only, leaks are not in the statement): " + (m.group(0) if m else "no leak reported"))
+    run.cleanup(wd)
+    return core.finish(ctx, "every history and file generated for C01-C12 (API histories with ~35% refused calls, caller-side mutation, save/reload, print, look-up grids, Parameter::set grid, "
+                       "generated well-formed files over all layout variants, the vendor files) run on the library built with AddressSanitizer (alloc_dealloc_mismatch=1), UndefinedBehaviorSanitizer and "
+                       "_GLIBCXX_ASSERTIONS, one process per script including object destruction; a sanitizer report or assertion abort is a violation with that script as replay; "
+                       "the Lean model must not evaluate to `ub` on them")
+
+CHECKS.update({"C13": c13})
+
+# ------------------------------------------------------------------------------------------ C14
+def c14(ctx):
+    from . import c3dgen
+    import subprocess
+    ctx.audit = leanaudit.audit(ctx.pid, thorough=not ctx.quick)
+    exe = ctx.exe("asan")
+    q = ctx.quick
+    def mk(i):
+        seed = ctx.seed * 100003 + 9000 + i
+        L, st = gen.gen_api_history(seed, nops=25, malformed=0.15, with_io=None, within_capacity=True)
+        # event-free objects built through the API, then saved twice; reload; save twice again
+        L += ["save @W@/a1.c3d", "save @W@/a2.c3d", "load @W@/a1.c3d", "save @W@/b1.c3d", "save @W@/b2.c3d"]
+        return (L, st, "c14-%d" % seed)
+    scripts = corpus_scripts("C14") + [mk(i) for i in range(80 if q else 2000)]
+    def one(item):
+        lines, st, tag = item
+        out = []
+        files = {}
+        for fill in (0xA5, 0x5A):
+            res = run.run_pair(lines, exe, fill=fill, keep=True)
+            fs = {}
+            for ln in res.script.split("\n"):
+                if ln.startswith("save "):
+                    p = ln.split(" ")[1]
+                    try: fs[os.path.basename(p)] = open(p, "rb").read()
+                    except Exception: fs[os.path.basename(p)] = None
+            files[fill] = (res, fs)
+            run.cleanup(res.wd)
+        resA, fA = files[0xA5]; resB, fB = files[0x5A]
+        # (ii) saving does not change the object
+        for rec, t, prev, d, vars_ in oracles.Walk(resA):
+            if rec["op"] == "save" and rec["res"] == "R ok" and prev is not None and d is not None and d != prev:
+                out.append(("save_changes_object", {"op": rec["n"]}, "the object dump after save differs from the dump before"))
+        # (iv) repeated saves are byte-identical
+        for a, b in (("a1.c3d", "a2.c3d"), ("b1.c3d", "b2.c3d")):
+            if fA.get(a) is not None and fA.get(b) is not None and fA[a] != fA[b]:
+                i = next((i for i, (x, y) in enumerate(zip(fA[a], fA[b])) if x != y), -1)
+                out.append(("repeat_differs", {"files": a + "/" + b}, "two saves of the same object differ (first difference at byte %d)" % i))
+        # (iii) bytes do not depend on what uninitialised heap memory contains
+        for name in fA:
+            if fA[name] is not None and fB.get(name) is not None and fA[name] != fB[name]:
+                i = next((i for i, (x, y) in enumerate(zip(fA[name], fB[name])) if x != y), -1)
+                out.append(("undefined_bytes", {"file": name, "offset_class": "header" if i < 512 else "parameters_or_data"}, "byte %d of %s depends on the content of uninitialised memory (malloc fill 0xA5 vs 0x5A: %02x vs %02x)" % (i, name, fA[name][i] if i >= 0 else 0, fB[name][i] if i >= 0 else 0)))
+        return item, resA, out
+    for (lines, st, tag), res, fails in core.pmap(one, scripts):
+        ctx.merge_stats(st)
+        ctx.record_pair(res, lines, "save")
+        if len(ctx.samples) < 2: ctx.sample("[save] " + " ; ".join(l[:70] for l in lines[:8]) + " ; ... ; save a1 ; save a2 ; load a1 ; save b1 ; save b2   (run twice: malloc fill 0xA5 and 0x5A)")
+        for c, w, dt in fails: ctx.fail(c, w, dt, lines)
+    # loaded files (events, reserved words, byte-typed values) saved under both fills
+    def onef(i):
+        outs = {}
+        for fill in (0xA5, 0x5A):
+            wd = run.workdir(); p = os.path.join(wd, "in.c3d")
+            desc, _ = c3dgen.make_file(ctx.seed * 31 + i, p)
+            S = ["dumpmode shape", "load %s" % p, "save @W@/o.c3d", "save @W@/o2.c3d"]
+            res = run.run_pair(S, exe, wd=wd, fill=fill)
+            try: outs[fill] = (open(os.path.join(wd, "o.c3d"), "rb").read(), open(os.path.join(wd, "o2.c3d"), "rb").read())
+            except Exception: outs[fill] = (None, None)
+            run.cleanup(wd)
+        return i, desc, S, res, outs
+    for i, desc, S, res, outs in core.pmap(onef, range(40 if q else 1000)):
+        ctx.record_pair(res, ["# generated file seed %d (%s)" % (ctx.seed * 31 + i, desc)] + S, "save-loaded")
+        a, b = outs[0xA5], outs[0x5A]
+        if a[0] is not None and (a[0] != a[1] or a[0] != b[0]):
+            ctx.fail("undefined_bytes" if a[0] != b[0] else "repeat_differs", {"file": "loaded-" + desc}, "saves of a loaded object differ between runs or repetitions", ["# generated file seed %d" % (ctx.seed * 31 + i)] + S)
+    # memcheck: definedness of every buffer handed to write(2)
+    vg = 0
+    plain = ctx.exe("plain")
+    vscripts = [mk(1000 + i)[0] for i in range(3 if q else 40)] + [["dumpmode none", "load /repo/test/c3dFiles/Qualisys.c3d", "save @W@/q.c3d"]] + [["new", "save @W@/n.c3d"]]
+    def onev(lines):
+        wd = run.workdir(); sp = os.path.join(wd, "s.txt"); open(sp, "w").write("\n".join(lines).replace("@W@", wd) + "\n")
+        r = subprocess.run(["valgrind", "--quiet", "--error-exitcode=9", "--track-origins=no", plain, sp, os.path.join(wd, "s.h")], stdout=subprocess.PIPE, stderr=subprocess.PIPE, text=True, timeout=900)
+        run.cleanup(wd)
+        return lines, r.returncode, r.stderr
+    for lines, rc, err in core.pmap(onev, vscripts, workers=8):
+        vg += 1
+        ctx.evaluations += 1
+        if "uninitialised" in err or rc == 9:
+            what = [l for l in err.split("\n") if "uninitialised" in l or "Invalid" in l][:2]
+            ctx.fail("memcheck", {"kind": "write-uninitialised" if "write(buf)" in err else "other"}, "valgrind memcheck: " + " | ".join(what), lines)
+    ctx.count("valgrind_runs", vg)
+    return core.finish(ctx, "saves of API-built and of loaded objects: library bytes == model bytes (the model's writer is a function of the object only); object dump before == after each save; "
+                       "two saves of one object byte-identical; every script run in two processes whose allocator fills fresh memory with 0xA5 resp. 0x5A - any byte taken from uninitialised heap differs "
+                       "between the two files; uninstrumented build under valgrind memcheck (definedness of every buffer passed to write(2)); distinct = (op, outcome, dump size)")
+
+CHECKS.update({"C14": c14})
+
+# ------------------------------------------------------------------------------------------ C18
+def shared_state_scan(ctx):
+    """writable static-storage symbols defined by the library's translation units (nm on the objects of a
+    build of the current tree) and references to non-reentrant libc functions"""
+    import subprocess, glob as g
+    exe = ctx.exe("plain")
+    d = os.path.dirname(exe)
+    bad = []
+    NONREENTRANT = {"strtok", "rand", "srand", "localtime", "gmtime", "asctime", "ctime", "setlocale", "getenv", "strerror", "tmpnam", "readdir"}
+    nobj = 0
+    for o in sorted(g.glob(os.path.join(d, "*.cpp.o"))):
+        nobj += 1
+        r = subprocess.run(["nm", "-C", o], stdout=subprocess.PIPE, text=True)
+        for line in r.stdout.split("\n"):
+            parts = line.split(None, 2)
+            if len(parts) == 3 and parts[1] in ("B", "b", "D", "d"):
+                sym = parts[2]
+                if sym.startswith("std::__ioinit") or sym.startswith("guard variable for std::") or sym.startswith("__"): continue
+                bad.append("%s: writable static storage `%s` (section %s)" % (os.path.basename(o), sym, parts[1]))
+            elif len(parts) == 2 and parts[0] == "U" and parts[1].split("@")[0] in NONREENTRANT:
+                bad.append("%s: calls non-reentrant %s" % (os.path.basename(o), parts[1]))
+    return bad, nobj
+
+def c18(ctx):
+    import subprocess
+    ctx.audit = leanaudit.audit(ctx.pid, thorough=not ctx.quick)
+    q = ctx.quick
+    bad, nobj = shared_state_scan(ctx)
+    ctx.count("translation_units_scanned", nobj)
+    if bad:
+        ctx.audit["ok"] = False
+        ctx.audit["failures"].append("hypothesis `the library has no shared mutable state` of the interleaving theorem no longer checks: " + "; ".join(bad[:5]))
+    tsan = ctx.exe("tsan"); asan = ctx.exe("asan")
+    rounds = 6 if q else 60
+    def one(rnd):
+        import random
+        r = random.Random(ctx.seed * 1000 + rnd)
+        nthreads = r.choice([2, 3, 4, 8] if q else [2, 3, 4, 8, 16])
+        wd = run.workdir()
+        scripts = []
+        for t in range(nthreads):
+            seed = ctx.seed * 100003 + rnd * 64 + t
+            kind = r.choice(["api", "api", "file"])
+            if kind == "api":
+                L, st = gen.gen_api_history(seed, nops=20, malformed=0.2, with_io=os.path.join(wd, "t%d" % t))
+                L = [l for l in L if l != "print"]            # print() shares std::cout: outside "share no data"
+            else:
+                from . import c3dgen
+                p = os.path.join(wd, "in%d.c3d" % t); c3dgen.make_file(seed, p)
+                L = ["dumpmode full", "load %s" % p, "save %s/o%d.c3d" % (wd, t), "load %s/o%d.c3d" % (wd, t), "point x5a5a", "save %s/o%d_2.c3d" % (wd, t)]
+            sp = os.path.join(wd, "s%d.txt" % t); open(sp, "w").write("\n".join(L) + "\n")
+            scripts.append((sp, L))
+        # sequential reference (each script alone) + model
+        seq = []
+        for t, (sp, L) in enumerate(scripts):
+            ho = os.path.join(wd, "seq%d.h" % t); run.run_harness(asan, sp, ho)
+            mo = os.path.join(wd, "seq%d.m" % t); run.run_driver(sp, mo)
+            seq.append((open(ho).read() if os.path.exists(ho) else None, open(mo).read() if os.path.exists(mo) else None))
+            for f in os.listdir(wd):       # saved files of the sequential run must not be seen as left-overs by the threaded run
+                if f.endswith(".c3d") and not f.startswith("in"): os.remove(os.path.join(wd, f))
+        args = [tsan, "--threads", str(rnd + 1 + ctx.seed)]
+        for t, (sp, L) in enumerate(scripts): args += [sp, os.path.join(wd, "mt%d.h" % t)]
+        env = dict(os.environ); env["TSAN_OPTIONS"] = "halt_on_error=1:exitcode=66:second_deadlock_stack=1"
+        cpu = r.choice([None, "0", "0-1", "0-3"])
+        if cpu: args = ["taskset", "-c", cpu] + args
+        try:
+            pr = subprocess.run(args, stdout=subprocess.PIPE, stderr=subprocess.PIPE, env=env, timeout=600)
+            rc, err = pr.returncode, pr.stderr.decode("latin1")
+        except subprocess.TimeoutExpired: rc, err = -999, "TIMEOUT"
+        fails = []
+        if rc != 0 or "ThreadSanitizer" in err:
+            fails.append(("data_race", {"threads": nthreads}, "ThreadSanitizer / abnormal exit (rc %s): %s" % (rc, err[-900:])))
+        for t in range(nthreads):
+            mt = os.path.join(wd, "mt%d.h" % t)
+            got = open(mt).read() if os.path.exists(mt) else None
+            if got != seq[t][0]: fails.append(("thread_result_differs", {"thread": t, "threads": nthreads}, "thread %d observed other results than the same script run alone" % t))
+            if seq[t][0] != seq[t][1]: fails.append(("_model_disagrees", {"thread": t}, "sequential run differs from the model"))
+        allL = []
+        for t, (sp, L) in enumerate(scripts): allL += ["# --- thread %d ---" % t] + L
+        run.cleanup(wd)
+        return rnd, nthreads, cpu, allL, fails
+    for rnd, nthreads, cpu, allL, fails in core.pmap(one, range(rounds), workers=4):
+        ctx.evaluations += 1
+        ctx.count("rounds_threads_%d" % nthreads); ctx.count("affinity_%s" % (cpu or "free"))
+        ctx.distinct_key("mt", rnd, nthreads, cpu)
+        if len(ctx.samples) < 2: ctx.sample("[threads=%d affinity=%s] " % (nthreads, cpu) + " ; ".join(l[:50] for l in allL[:10]))
+        for c, w, dt in fails:
+            if c == "_model_disagrees": ctx.disagreements.append(("threads", dt, allL))
+            else: ctx.fail(c, w, dt, allL)
+    return core.finish(ctx, "symbol scan (nm on every translation unit of a build of the current tree: no writable static-storage symbol, no non-reentrant libc call) discharging the hypothesis of the "
+                       "interleaving theorem; then rounds of 2-16 threads, each running its own generated history (API construction, load, edit, save to its own path, destruction) on its own object in "
+                       "a ThreadSanitizer build with randomly perturbed schedules (yield/sleep injection per op, CPU affinity 1/2/4/all); every thread's output stream must equal that of the same script run "
+                       "alone (and the model's); distinct = (round, thread count, affinity)")
+
+# ------------------------------------------------------------------------------------------ C19
+def c19(ctx):
+    import subprocess
+    from . import c3dgen
+    ctx.audit = leanaudit.audit(ctx.pid, thorough=not ctx.quick)
+    q = ctx.quick
+    builds = [(o, sh) for o in ("O0", "O2", "O3") for sh in (False, True)]
+    exes = core.pmap(lambda b: (b, ctx.exe(b[0], shared=b[1])), builds, workers=6)
+    n = 40 if q else 800
+    jobs = []
+    for i in range(n):
+        seed = ctx.seed * 100003 + 70000 + i
+        L, st = gen.gen_api_history(seed, nops=25, malformed=0.2, with_io="@W@/f")
+        jobs.append((L, "api-%d" % seed, None))
+    for i in range(n // 2):
+        jobs.append((["dumpmode full", "load @W@/in.c3d", "save @W@/o.c3d", "load @W@/o.c3d", "save @W@/o2.c3d"], "file-%d" % i, ctx.seed * 53 + i))
+    jobs.append((["dumpmode shape", "load /repo/test/c3dFiles/Vicon.c3d", "save @W@/v.c3d", "load /repo/test/c3dFiles/Qualisys.c3d", "save @W@/q.c3d", "load /repo/test/c3dFiles/Optotrak.c3d", "save @W@/o.c3d"], "vendor", None))
+    def one(job):
+        L, tag, fseed = job
+        outs = []
+        wd = run.workdir()
+        if fseed is not None: c3dgen.make_file(fseed, os.path.join(wd, "in.c3d"))
+        text = "\n".join(L).replace("@W@", wd) + "\n"
+        sp = os.path.join(wd, "s.txt"); open(sp, "w").write(text)
+        saves = [l.split(" ")[1] for l in text.split("\n") if l.startswith("save ")]
+        ref = None; fails = []
+        for (b, exe) in exes:
+            ho = os.path.join(wd, "out-%s-%s.h" % (b[0], "so" if b[1] else "a"))
+            rc, err, dt = run.run_harness(exe, sp, ho)
+            stream = open(ho).read() if os.path.exists(ho) else ""
+            files = []
+            for p in saves:
+                try: files.append(open(p, "rb").read())
+                except Exception: files.append(None)
+            cur = (rc, stream, files)
+            if ref is None:
+                ref = (b, cur)
+                mo = os.path.join(wd, "m.txt"); run.run_driver(sp, mo)      # the model reads the files the reference build wrote
+            for p in saves:
+                try: os.remove(p)
+                except Exception: pass
+            if ref[0] == b: pass
+            elif cur != ref[1]:
+                what = "exit status" if cur[0] != ref[1][0] else "values / exception classes" if cur[1] != ref[1][1] else "saved bytes"
+                fails.append(("builds_differ", {"build": "%s-%s" % (b[0], "shared" if b[1] else "static"), "what": what}, "build %s-%s differs from %s-%s in %s" % (b[0], "shared" if b[1] else "static", ref[0][0], "shared" if ref[0][1] else "static", what)))
+        # the model against the reference build
+        mo = os.path.join(wd, "m.txt")
+        ms = open(mo).read() if os.path.exists(mo) else ""
+        mfiles = []
+        for p in saves:
+            try: mfiles.append(open(p + ".model", "rb").read())
+            except Exception: mfiles.append(None)
+        if ref and (ms != ref[1][1]): fails.append(("_model", {}, "model stream differs from the -O0 static build"))
+        elif ref and [f for f in mfiles] != ref[1][2] and all(f is not None for f in ref[1][2]): fails.append(("_model", {}, "model bytes differ from the -O0 static build"))
+        run.cleanup(wd)
+        return job, fails
+    for (L, tag, fseed), fails in core.pmap(one, jobs, workers=12):
+        ctx.evaluations += 1
+        ctx.distinct_key("c19", tag)
+        ctx.count("inputs_" + tag.split("-")[0])
+        if len(ctx.samples) < 2: ctx.sample("[%s] " % tag + " ; ".join(l[:60] for l in L[:8]))
+        for c, w, dt in fails:
+            if c == "_model": ctx.disagreements.append(("builds", dt, L))
+            else: ctx.fail(c, w, dt, (["# generated input file seed %s" % fseed] if fseed is not None else []) + L)
+    ctx.count("builds", len(exes))
+    # arithmetic UB actually executed (the licence a compiler would need to differ): UBSan in recover mode, reports by source line
+    ub = ctx.exe("ubarith")
+    sites = {}
+    def oneub(job):
+        L, tag, fseed = job
+        wd = run.workdir()
+        if fseed is not None: c3dgen.make_file(fseed, os.path.join(wd, "in.c3d"))
+        sp = os.path.join(wd, "s.txt"); open(sp, "w").write("\n".join(L).replace("@W@", wd) + "\n")
+        pr = subprocess.run([ub, sp, os.path.join(wd, "u.h")], stdout=subprocess.PIPE, stderr=subprocess.PIPE, env=dict(os.environ, UBSAN_OPTIONS="halt_on_error=0:print_stacktrace=0"), timeout=600)
+        run.cleanup(wd)
+        import re
+        return re.findall(r"(/repo/src/\w+\.cpp:\d+):\d+: runtime error: ([^\n]{0,60})", pr.stderr.decode("latin1"))
+    for found in core.pmap(oneub, jobs[: (20 if q else 200)] + jobs[-1:], workers=12):
+        for site, msg in found: sites[site] = sites.get(site, 0) + 1
+    EXPECTED = {"hex2uint", "hex2int"}     # the (int)pow(0x100,i) idiom
+    def func_at(site):
+        import re
+        f, ln = site.rsplit(":", 1)
+        name = "?"
+        try:
+            for i, l in enumerate(open(f, errors="replace").read().split("\n")[:int(ln)]):
+                m = re.match(r"^\S.*?(\w+)\s*\([^;]*$", l)
+                if m and not l.startswith(" ") and "::" in l: name = m.group(1)
+        except Exception: pass
+        return name
+    for site, cnt in sites.items():
+        fn = func_at(site)
+        ctx.count("arith_ub_in_" + fn, cnt)
+        if fn not in EXPECTED:
+            ctx.fail("arith_ub_new_site", {"function": fn}, "arithmetic undefined behaviour executed in a function the model does not list: %s in %s (%d reports)" % (site, fn, cnt), ["# see evidence: UBSan signed-integer-overflow / float-cast-overflow report"])
+    ctx.assumptions.append("hex2uint/hex2int (ezc3d.cpp:101-115) execute float->int conversions out of range and signed overflow on every header read (4-byte and 270-byte fields); "
+                           "the model takes the x86-64 results (INT_MIN, wrap-around); the six-build comparison watches that gcc keeps producing them")
+    return core.finish(ctx, "six uninstrumented builds of the current tree {-O0,-O2,-O3} x {static archive, shared object} run the same API histories (incl. refused calls and save/reload), "
+                       "generated input files and the vendor files; exit status, every returned value / exception class (full dump stream) and every saved byte must be identical across the builds "
+                       "and equal to the model; a UBSan (signed-integer-overflow, float-cast-overflow) build in recover mode lists the source lines where arithmetic UB is executed, which must be "
+                       "exactly the known hex2uint/hex2int lines; distinct = input")
+
+CHECKS.update({"C18": c18, "C19": c19})
